@@ -52,7 +52,7 @@ that touches code the property is actually about. Keep the patch small (typicall
     "ran": ["<commands you ran and their outcome, incl. the existing tests with the change applied>"]}}
   ```
 The demo command must exit 0 on the unmodified worktree and non-zero with the patch applied; verify both yourself
-(`git stash` / `git apply`). When finished, leave the worktree in any state (it will be deleted) and reply with a
+(use `git diff > ../p.diff; git apply -R ../p.diff; ...; git apply ../p.diff` — NEVER `git stash`: the stash is shared between all worktrees of this repository and other workers use it concurrently). When finished, leave the worktree in any state (it will be deleted) and reply with a
 short summary (what you changed, why it is hard to notice, what you verified).
 """)
     print("prepared", d)
